@@ -1,5 +1,5 @@
 """C17 - time-limited evidence judged against the clock at verification time."""
-import json, sys, time
+import json, os, sys, time
 from harness import fw, impl, authsim, regsim, regcat, regrun, oracle
 
 TRUSTED = [
@@ -33,34 +33,50 @@ def run(tier, seed):
     for sec in range(-15, 16):
         offs.add(sec * 1000)
     offs |= {-86400000, 86400000, -10 ** 9, 10 ** 9, -500, 500}
-    for frac_ms in (0, 1, 250, 999):
-        Tms = T0 * 1000 + frac_ms
-        saved = vst.time
-        vst.time = impl._FakeTime(T0, frac_ms / 1000.0)
-        try:
-            for off in sorted(offs):
-                ts = Tms + off
-                try:
-                    f(ts)
-                    ok = True
-                except ValueError:
-                    ok = False
-                except Exception as e:
-                    ok = None
-                    chk.violation(f"timestamp check raised {type(e).__name__}", "ts-raises", {"T_ms": Tms, "ts": ts})
-                chk.evals += 1
-                must_accept = -10000 <= off <= 9000
-                must_reject = off <= -11000 or off > 10000
-                if (must_accept and ok is False) or (must_reject and ok is True):
-                    chk.violation(f"SafetyNet timestamp {off:+d} ms from the clock {'rejected' if must_accept else 'accepted'}", f"ts-window off={off}",
-                                  {"entry": "verify_safetynet_timestamp", "clock_ms": Tms, "timestamp_ms": ts, "accepted": ok})
-                if B.R:
-                    m = B.R.call(f"tsok {fw.wi(T0)} {fw.wi(ts)}")
-                    if (m == "T") != bool(ok):
-                        chk.diverge("Model.timestamp_ok", f"clock {Tms} ts {ts}: model {m} impl {ok}", {"clock_ms": Tms, "timestamp_ms": ts})
-                chk.seen(("ts", frac_ms, off))
-        finally:
-            vst.time = saved
+    # the window is anchored to the epoch clock: the process time zone must not move it
+    saved_tz = os.environ.get("TZ")
+    for tz in ("UTC", "JST-9", "PST8PDT"):
+        os.environ["TZ"] = tz
+        time.tzset()
+        for frac_ms in ((0, 1, 250, 999) if tz == "UTC" else (250,)):
+            Tms = T0 * 1000 + frac_ms
+            saved = vst.time
+            vst.time = impl._FakeTime(T0, frac_ms / 1000.0)
+            try:
+                for off in sorted(offs):
+                    ts = Tms + off
+                    try:
+                        f(ts)
+                        ok = True
+                    except ValueError:
+                        ok = False
+                    except Exception as e:
+                        ok = None
+                        chk.violation(f"timestamp check raised {type(e).__name__}", "ts-raises", {"T_ms": Tms, "ts": ts})
+                    chk.evals += 1
+                    must_accept = -10000 <= off <= 9000
+                    must_reject = off <= -11000 or off > 10000
+                    if (must_accept and ok is False) or (must_reject and ok is True):
+                        chk.violation(f"SafetyNet timestamp {off:+d} ms from the clock {'rejected' if must_accept else 'accepted'}", f"ts-window off={off}" + ("" if tz == "UTC" else f" TZ={tz}"),
+                                      {"entry": "verify_safetynet_timestamp", "clock_ms": Tms, "timestamp_ms": ts, "accepted": ok, "TZ": tz})
+                    if B.R:
+                        m = B.R.call(f"tsok {fw.wi(T0)} {fw.wi(ts)}")
+                        if (m == "T") != bool(ok):
+                            chk.diverge("Model.timestamp_ok", f"clock {Tms} ts {ts}: model {m} impl {ok}", {"clock_ms": Tms, "timestamp_ms": ts})
+                    chk.seen(("ts", frac_ms, off, tz))
+            finally:
+                vst.time = saved
+        if tz != "UTC":
+            for off_ms in (-10000, 0, 9000, 3600000 * 9, -3600000 * 8):
+                s = regsim.RScn("android-safetynet", "ES256-P256")
+                s.k["sn_timestamp"] = T0 * 1000 + 250 + off_ms
+                pd, reg = regsim.build(s)
+                B.run_case(regrun.policy_of(pd), reg, "dict", "accept" if -10000 <= off_ms <= 9000 else "reject", f"safetynet-ts{off_ms:+d}ms TZ={tz}", scn=s)
+    if saved_tz is None:
+        os.environ.pop("TZ", None)
+    else:
+        os.environ["TZ"] = saved_tz
+    time.tzset()
     chk.sample({"subject": "verify_safetynet_timestamp", "clock_ms": T0 * 1000 + 250, "offsets_ms": sorted(offs)[:12]})
     # 2. SafetyNet through verify_registration_response
     for off_ms in (-11001, -10250, -10000, -9000, 0, 9000, 9750, 10001, 11000, 3600000, -3600000):
